@@ -205,9 +205,21 @@ static void run_cring(const std::vector<std::string> &w, out &o)
         if (valid)
             for (uint64_t i = 0; i < n; i++) c.q.push_back(c.p()[(r->head + i) % size]);
         // ... and publishes them with a head move
+        uint64_t h0 = r->head, t0 = r->tail;
         if (op == "mh1" || op == "prod1") ring_move_head_one(r);
         else ring_move_head(r, (unsigned)n);
-        if (!valid) { cring_resync(c); o.tag("overmove"); }
+        if (!content)
+        { // ring without data (sizes above 2^31): the index arithmetic itself, in 64 bit
+            uint64_t avail0 = (h0 + size - t0) % size;
+            if (n <= size - 1 - avail0)
+            {
+                if (r->head != (h0 + n) % size)
+                    o.fail("move_head(" + S(n) + ") from head " + S(h0) + " size " + S(size) + " gives " + S(r->head) + ", not (head+n) mod size");
+                if (h0 + n > 0xFFFFFFFFull) o.tag("head+bias>=2^32");
+                o.tag("huge-move");
+            }
+        }
+        if (!valid) { cring_resync(c); if (content) o.tag("overmove"); }
         else if (n > 1) o.tag("bulk-move");
     }
     else if (op == "mt1" || op == "mt" || op == "cons" || op == "cons1")
@@ -226,6 +238,22 @@ static void run_cring(const std::vector<std::string> &w, out &o)
         // ... and releases them with a tail move
         if (valid)
             for (uint64_t i = 0; i < n; i++) c.q.pop_front();
+        uint64_t h0 = r->head, t0 = r->tail;
+        if (!content)
+        {
+            uint64_t avail0 = (h0 + size - t0) % size;
+            uint64_t exp = (t0 + n) % size;
+            bool ok = n <= avail0;
+            if (op == "mt1") ring_move_tail_one(r); else ring_move_tail(r, (unsigned)n);
+            if (ok)
+            {
+                if (r->tail != exp)
+                    o.fail("move_tail(" + S(n) + ") from tail " + S(t0) + " size " + S(size) + " gives " + S(r->tail) + ", not (tail+n) mod size");
+                if (t0 + n > 0xFFFFFFFFull) o.tag("tail+bias>=2^32");
+                o.tag("huge-move");
+            }
+        }
+        else
         if (op == "mt1" || op == "cons1") ring_move_tail_one(r);
         else ring_move_tail(r, (unsigned)n);
         if (!valid) { cring_resync(c); o.tag("overmove"); }
@@ -537,11 +565,97 @@ static void run_rc(const std::vector<std::string> &w, out &o)
     o.result = ret + " " + S(rcs.counter);
 }
 
+// ============================================================ lifetime probes
+// Oracle-only operations (the Lean model has no notion of object lifetime and
+// answers "-"): a ledger of live objects / live allocations observes what the
+// containers do to their elements.
+#include <set>
+struct Ledger
+{
+    std::set<const void *> live;
+    std::set<void *> blocks;
+    long allocs = 0;
+    std::vector<std::string> errs;
+    void err(const std::string &e) { if (errs.size() < 4) errs.push_back(e); }
+};
+static Ledger LG;
+struct Tracked
+{
+    int v;
+    void born()
+    {
+        if (!LG.live.insert(this).second) LG.err("object constructed over a live object (the old one is never destroyed)");
+    }
+    Tracked() : v(0) { born(); }
+    Tracked(int x) : v(x) { born(); }
+    Tracked(const Tracked &o) : v(o.v) { born(); }
+    Tracked &operator=(const Tracked &o)
+    {
+        if (!LG.live.count(this)) LG.err("assignment to an object that is not alive");
+        v = o.v;
+        return *this;
+    }
+    ~Tracked()
+    {
+        if (!LG.live.erase(this)) LG.err("destructor run on an object that is not alive (destroyed twice or never constructed)");
+    }
+};
+template <class T> struct CountingAlloc
+{
+    typedef T value_type;
+    CountingAlloc() = default;
+    template <class U> CountingAlloc(const CountingAlloc<U> &) {}
+    T *allocate(size_t n)
+    {
+        LG.allocs++;
+        T *p = (T *)malloc(n ? n * sizeof(T) : 1);
+        LG.blocks.insert(p);
+        return p;
+    }
+    void deallocate(T *p, size_t n)
+    {
+        if (!p) return;
+        LG.allocs--;
+        auto it = LG.live.lower_bound(p);
+        if (it != LG.live.end() && (const char *)*it < (const char *)(p + n)) LG.err("storage released while it holds live objects");
+        LG.blocks.erase(p);
+        free(p);
+    }
+};
+typedef igris::unbounded_array<Tracked, CountingAlloc<Tracked>> TArr;
+typedef igris::ring<Tracked, CountingAlloc<Tracked>> TRng;
+typedef igris::cyclic_buffer<Tracked, CountingAlloc<Tracked>> TCyc;
+
+static void run_lifeprobe(const std::vector<std::string> &w, out &o)
+{
+    LG = Ledger();
+    const std::string &k = w[1];
+    long a = w.size() > 2 ? strtol(w[2].c_str(), 0, 10) : 0, b = w.size() > 3 ? strtol(w[3].c_str(), 0, 10) : 0;
+    if (k == "array") { TArr x(a); }
+    else if (k == "resize") { TArr x(a); x.resize(b); for (auto &e : x) e = Tracked(1); }
+    else if (k == "copy") { TArr x(a); TArr y(x); }
+    else if (k == "assign") { TArr x(a), y(b); x = y; }
+    else if (k == "selfassign") { TArr x(a); TArr &y = x; x = y; }
+    else if (k == "ringctor") { TRng r((int)a); TRng e; e.resize(b); }
+    else if (k == "push") { TRng r((int)a); for (long i = 0; i < b; i++) r.push(Tracked((int)i)); }
+    else if (k == "pushpop") { TRng r((int)a); for (long i = 0; i < b; i++) { r.push(Tracked((int)i)); r.pop(); } }
+    else if (k == "cyc") { TCyc c(a); for (long i = 0; i < b; i++) c.push(Tracked((int)i)); c.resize(a + 1); c.push(Tracked(7)); (void)c[0]; }
+    else { o.result = "bad-op"; return; }
+    if (!LG.live.empty()) LG.err(S(LG.live.size()) + " objects never destroyed");
+    if (LG.allocs != 0) LG.err(S(LG.allocs) + " allocations never released");
+    for (auto &e : LG.errs) o.fail(k + ": " + e);
+    for (void *p : LG.blocks) free(p); // keep LeakSanitizer out of it: the ledger has reported
+    LG = Ledger();
+    o.tag("lifetime");
+    o.result = "-";
+}
+
 // ------------------------------------------------------------------------ run
 static int kind = 0; // 1 ring, 2 typed int, 3 typed char, 4 cyc, 5 rc
 static void run_op(const std::vector<std::string> &w, const std::string &, out &o)
 {
     if (w.empty()) { o.result = "bad-op"; return; }
+    if (w[0] == "lifeprobe" && w.size() >= 2) { run_lifeprobe(w, o); return; }
     if (w[0] == "reset")
     {
         if (w.size() == 4 && w[1] == "ring")
@@ -752,22 +866,44 @@ static void gen_all_bytes()
 // head + bias; no data operations (the buffer is 16 bytes)
 static void gen_huge(rng &r)
 {
+    const std::string F = "@F:C03-bulk-move-size-above-2^31 ";
     for (uint64_t size : {4294967295ull, 2147483648ull, 2147483649ull, 4294967294ull, 3000000000ull})
     {
         P("reset ring " + S(size) + " 16");
-        for (int k = 0; k < 40; k++)
+        for (int k = 0; k < 60; k++)
         {
             uint64_t h = r.chance(50) ? size - 1 - r.below(4) : r.below(size);
             uint64_t t = r.chance(50) ? r.below(4) : r.chance(50) ? size - 1 - r.below(4) : r.below(size);
             P("set " + S(h) + " " + S(t));
+            uint64_t avail = (h + size - t) % size, room = size - 1 - avail;
             switch (r.below(5))
             {
             case 0: P("mh1"); break;
             case 1: P("mt1"); break;
-            case 2: P("mh " + S(r.chance(50) ? r.below(8) : r.below(size))); break;
-            case 3: P("mt " + S(r.chance(50) ? r.below(8) : r.below(size))); break;
+            case 2:
+            {
+                // a move within the contract (n <= room); when head + n passes 2^32 the
+                // unsigned addition wraps before the fix-up: recorded finding
+                uint64_t n = r.chance(50) ? std::min<uint64_t>(r.below(8), room) : r.below(room + 1);
+                P(std::string(h + n > 0xFFFFFFFFull ? F : "") + "mh " + S(n));
+                break;
+            }
+            case 3:
+            {
+                uint64_t n = r.chance(50) ? std::min<uint64_t>(r.below(8), avail) : r.below(avail + 1);
+                P(std::string(t + n > 0xFFFFFFFFull ? F : "") + "mt " + S(n));
+                break;
+            }
             default: break;
             }
+        }
+        // the witness of the finding, always present for the sizes that admit it
+        if (size > 2147483648ull)
+        {
+            P("set " + S(size - 2) + " " + S(size - 2));
+            P(F + "mh " + S(4294967296ull - (size - 2) + 1));
+            P("set " + S(size - 3) + " " + S(size - 2));
+            P(F + "mt " + S(4294967296ull - (size - 2) + 1));
         }
     }
 }
@@ -922,9 +1058,36 @@ static void gen_cyc(rng &r, bool th)
     }
 }
 
+// element lifetime in unbounded_array / ring / cyclic_buffer (oracle-only)
+static void gen_lifetime()
+{
+    P("reset rc 1");
+    for (int a : {0, 1, 3, 8})
+    {
+        P("lifeprobe array " + S(a));
+        P("lifeprobe copy " + S(a));
+        P("lifeprobe selfassign " + S(a));
+        for (int b : {0, 1, 5})
+        {
+            P("lifeprobe resize " + S(a) + " " + S(b));
+            P("lifeprobe assign " + S(a) + " " + S(b));
+            P("lifeprobe ringctor " + S(a) + " " + S(b));
+            if (a) P("lifeprobe cyc " + S(a) + " " + S(b));
+        }
+    }
+    // recorded finding: igris::ring<T> placement-constructs over the live element
+    // the array constructed and pop() destroys an element the array destroys again
+    for (int n : {1, 3, 8})
+    {
+        P("@F:C03-ring-element-lifetime lifeprobe push " + S(n) + " " + S(n));
+        P("@F:C03-ring-element-lifetime lifeprobe pushpop " + S(n) + " " + S(2 * n + 1));
+    }
+}
+
 static void gen(rng &r, const std::string &tier)
 {
     bool th = tier == "thorough";
+    gen_lifetime();
     gen_exhaustive_ring(th ? 12 : 9);
     gen_all_bytes();
     gen_huge(r);
